@@ -5,6 +5,7 @@ import (
 	"go/token"
 	"go/types"
 	"regexp"
+	"sort"
 	"strings"
 
 	"golang.org/x/tools/go/ssa"
@@ -184,12 +185,7 @@ func rulesC04(w *World, r *Report) {
 	}
 	r.Check(okFuture && okOld && len(nilConds) == 2, "C04.R2", "FetchFromArchive:nil-conditions", w.pos(f.Pos()), "nil iff now < from or until < now - retention(selected archive)", "a fetch returns no series under ["+strings.Join(nilConds, " ; ")+"]; the contract is exactly `now < from` (wholly in the future) and `until < now - retention of the selected archive` (wholly before its retention)")
 
-	r.Rule("C04.R3", "rejecting tests: FetchFromArchive fails iff until < from, iff len(archives)-1 < id, iff id < 0 for id != best — all before any file read", 3)
-	fcs := failConditions(w, f)
-	have := map[string]*failCond{}
-	for i := range fcs {
-		have[fcs[i].Core()] = &fcs[i]
-	}
+	r.Rule("C04.R3", "rejecting tests (decision diagram over representatives): with 2 archives, for every archive id in -3..3 and every order of from/until, FetchFromArchive reaches a failure return before its first file read iff until < from, id > last archive, or id < 0 other than 'best' (-1)", 3)
 	var firstRead ssa.Instruction
 	for _, c := range callsIn(f) {
 		if sc := c.Common().StaticCallee(); sc != nil && (sc == fn(w.Lib, "Whisper.baseInterval") || sc == fn(w.Lib, "Whisper.fetchRawPoints")) {
@@ -198,20 +194,74 @@ func rulesC04(w *World, r *Report) {
 			}
 		}
 	}
-	for _, wc := range []struct{ key, core, doc string }{
-		{"from-after-until", "p3 < p2", "from > until is an error"},
-		{"id-too-large", "(len((*whispertool.Whisper).ArchiveInfoList(p0)) - 1) < p1", "archive id beyond the last archive"},
-		{"id-negative", "p1 < 0", "negative archive id other than 'best'"},
-	} {
-		fc := have[wc.core]
-		ok := fc != nil && (wc.key == "id-negative" || firstRead == nil || fc.At.Block().Dominates(firstRead.Block()))
-		if ok && wc.key != "id-negative" && len(fc.Guards) > 0 {
-			ok = false
+	if len(f.Params) < 5 {
+		r.Undecided("C04.R3", "FetchFromArchive:signature", w.pos(f.Pos()), "FetchFromArchive no longer takes (id, from, until, now)")
+	} else {
+		const nArch = 2
+		lenBind := map[ssa.Value]aval{}
+		ail := fn(w.Lib, "Whisper.ArchiveInfoList")
+		eachInstr(f, func(in ssa.Instruction) {
+			c, ok := in.(*ssa.Call)
+			if !ok {
+				return
+			}
+			if b, ok := c.Call.Value.(*ssa.Builtin); ok && b.Name() == "len" {
+				if ac, ok := stripChangeType(c.Call.Args[0]).(*ssa.Call); ok && ail != nil && ac.Common().StaticCallee() == ail {
+					lenBind[c] = aval{k: kInt, i: nArch}
+				}
+			}
+		})
+		type verdict struct{ wrong []string }
+		res := map[string]*verdict{"from-after-until": {}, "id-too-large": {}, "id-negative": {}}
+		undecided := ""
+		for id := int64(-3); id <= 3 && undecided == ""; id++ {
+			for _, ft := range [][2]int64{{5, 9}, {9, 5}, {7, 7}} {
+				e := &ddEngine{w: w, env: map[ssa.Value]aval{f.Params[1]: {k: kInt, i: id}, f.Params[2]: {k: kInt, i: ft[0]}, f.Params[3]: {k: kInt, i: ft[1]}}, maxLeafs: 256}
+				for k, v := range lenBind {
+					e.env[k] = v
+				}
+				e.stop = func(b *ssa.BasicBlock) bool { return firstRead != nil && b == firstRead.Block() }
+				e.run(f)
+				if e.err != nil {
+					undecided = e.err.Error()
+					break
+				}
+				wantFail := map[string]bool{"from-after-until": ft[1] < ft[0], "id-too-large": id > nArch-1, "id-negative": id < 0 && id != -1}
+				anyWant := wantFail["from-after-until"] || wantFail["id-too-large"] || wantFail["id-negative"]
+				nFail, nPass := 0, 0
+				for _, l := range e.leaves {
+					if l.ret != nil && len(l.results) == 2 && (l.results[1].k == kNonNil || isFailureReturn(l.ret)) {
+						nFail++
+					} else {
+						nPass++
+					}
+				}
+				desc := fmt.Sprintf("id=%d from=%d until=%d", id, ft[0], ft[1])
+				for k, wf := range wantFail {
+					if wf && nPass > 0 {
+						res[k].wrong = append(res[k].wrong, desc+" is not rejected before the first read")
+					}
+				}
+				if !anyWant && nFail > 0 {
+					for k := range res {
+						res[k].wrong = append(res[k].wrong, desc+" is rejected although it is a valid request")
+					}
+				}
+			}
 		}
-		if ok && wc.key == "id-negative" && !(len(fc.Guards) == 1 && fc.Guards[0] == "(p1 != -1)") {
-			ok = false
+		docs := map[string]string{"from-after-until": "from > until is an error", "id-too-large": "archive id beyond the last archive is an error", "id-negative": "negative archive id other than 'best' is an error"}
+		for _, k := range []string{"from-after-until", "id-too-large", "id-negative"} {
+			if undecided != "" {
+				r.Undecided("C04.R3", "FetchFromArchive:"+k, w.pos(f.Pos()), "the decision diagram of FetchFromArchive could not be evaluated: "+undecided)
+				continue
+			}
+			sort.Strings(res[k].wrong)
+			bad := ""
+			if len(res[k].wrong) > 0 {
+				bad = res[k].wrong[0]
+			}
+			r.Check(len(res[k].wrong) == 0, "C04.R3", "FetchFromArchive:"+k, w.pos(f.Pos()), docs[k]+", and nothing else is; decided for 21 representative inputs before the first file read", "missing, late or excessive rejecting test ("+docs[k]+"): "+bad)
 		}
-		r.Check(ok, "C04.R3", "FetchFromArchive:"+wc.key, w.pos(f.Pos()), wc.doc, "missing or late rejecting test `"+wc.core+"` ("+wc.doc+") before the first file read")
 	}
 
 	r.Rule("C04.R4", "derives-from: findBestArchive receives the caller's unclamped from and now; the selected archive r = list[id] provides the retention for clamping, the step and the interval alignment; from is clamped up to now-retention and until down to now; bounds are r.interval(clamped) with until extended by one step exactly when they coincide", 5)
